@@ -300,15 +300,18 @@ Definition w_init (h : handle) (dm : mode) (lk : bool) : world :=
   {| handle_of := h; defmode := dm; file := []; locked := lk; close_fault := false |}.
 
 Definition agree_run (h : handle) (dm : mode) (lk : bool) (ops : list op)
-           (obs_out : list (option err)) (obs_handles : list handle) (obs_changed : bool) : bool :=
+           (obs_out : list (option err)) (obs_handles : list handle) (obs_log : list string) : bool :=
   let fix go (ops : list op) (w : world) : list (option err) * list handle * world :=
       match ops with
       | [] => ([], [], w)
       | o :: r => let '(w1, e) := step w o in let '(es, hs, w2) := go r w1 in (e :: es, handle_of w1 :: hs, w2)
       end in
   let '(es, hs, wf) := go ops (w_init h dm lk) in
-  outcomes_eqb es obs_out && list_eqb handle_eqb hs obs_handles
-  && Bool.eqb (negb (match file wf with [] => true | _ => false end)) obs_changed.
+  outcomes_eqb es obs_out && list_eqb handle_eqb hs obs_handles && list_eqb String.eqb (file wf) obs_log.
+
+(* every traced call sits at a table row (file, line range, routine, literal mode) *)
+Definition sites_ok (t : list row) (l : list (string * nat * iocall)) : bool :=
+  forallb (fun x => let '(f, n, c) := x in site_in_table t f n c) l.
 
 (* C11 case: with-block with an exception after k ops *)
 Definition agree_with (h : handle) (dm : mode) (fault : bool) (ops : list op) (k : nat)
